@@ -16,6 +16,7 @@ type SExpr struct {
 	Str   string
 	Args  []*SExpr
 	Binds []SBind // quant
+	Trigs [][]*SExpr // quant: explicit triggers
 	Pos   string  // source location (file:line) for messages
 }
 
@@ -250,7 +251,7 @@ func (p *sparser) expr() (*SExpr, error) {
 				if t.kind == "eof" {
 					return nil, fmt.Errorf("unterminated quantifier binding")
 				}
-				if depth == 0 && t.kind == "op" && (t.text == "," || t.text == "::") {
+				if depth == 0 && t.kind == "op" && (t.text == "," || t.text == "::" || t.text == "{") {
 					break
 				}
 				if t.kind == "op" && t.text == "[" {
@@ -269,6 +270,23 @@ func (p *sparser) expr() (*SExpr, error) {
 			}
 			break
 		}
+		var trigs [][]*SExpr
+		for p.isOp("{") {
+			p.p++
+			var group []*SExpr
+			for !p.isOp("}") {
+				t, err := p.cond()
+				if err != nil {
+					return nil, err
+				}
+				group = append(group, t)
+				if p.isOp(",") {
+					p.p++
+				}
+			}
+			p.p++
+			trigs = append(trigs, group)
+		}
 		if err := p.expect("::"); err != nil {
 			return nil, err
 		}
@@ -276,7 +294,7 @@ func (p *sparser) expr() (*SExpr, error) {
 		if err != nil {
 			return nil, err
 		}
-		return &SExpr{Kind: "quant", Name: kind, Binds: binds, Args: []*SExpr{body}, Pos: p.pos}, nil
+		return &SExpr{Kind: "quant", Name: kind, Binds: binds, Trigs: trigs, Args: []*SExpr{body}, Pos: p.pos}, nil
 	}
 	return p.iff()
 }
